@@ -165,8 +165,14 @@ class MyPyAstVisitor:
                 generic_types = [item.node for item in generic_expr.items if hasattr(item, "node")]
             elif isinstance(generic_expr, mp_nodes.NameExpr):
                 generic_types = [generic_expr.node]
-            else:  # pragma: no cover
-                raise TypeError("Unexpected type while parsing generic type.")
+            else:
+                # A base class like "Sequence[list[int]]" does not declare type variables
+                generic_types = []
+
+            # Only type variables are type parameters, "Sequence[int]" does not declare any
+            generic_types = [
+                generic_type for generic_type in generic_types if isinstance(generic_type, mp_nodes.TypeVarExpr)
+            ]
 
             for generic_type in generic_types:
                 variance_type = mypy_variance_parser(generic_type.variance)
